@@ -1,7 +1,7 @@
-(* C07 (round 3) — concrete runs of the saga machine on binary64: the hypotheses are
-   satisfiable; REFUTATION of "the stop test looks at the whole iterate" (known finding
-   F-SAGA-STOP-ZERO-PREFIX: EvalStopping walks a joint iterator that ends at the first
-   index where both iterates are zero); the hook without regulariser panics
+(* C07 (round 3; re-computed at HEAD 494d9f3) — concrete runs of the saga machine on binary64:
+   the hypotheses are satisfiable; REGRESSION of the retired finding F-SAGA-STOP-ZERO-PREFIX
+   (EvalStopping walked a joint iterator that ended at the first index where both iterates are
+   zero; since 494d9f3 it visits every coordinate); the hook without regulariser panics
    (F-SAGA-HOOK-NIL, informational).  Reproduced on the Go implementation by
    corpus/C07/corpus.jsonl. *)
 From Coq Require Import ZArith List Bool Floats.
@@ -17,21 +17,25 @@ Definition noRJ (k : nat) : nat := 0%nat.
 Definition noSHK (k : nat) (h : sg_hookargs (A := float)) := false.
 Definition Psg (hook : bool) : sg_params (A := float) := mkSg 1%nat 0.5 0.125 50%Z hook PNone true false.
 
-(* returns (0, 0.5) as converged after ONE epoch: the coded test saw no coordinate at all
-   (both iterates are zero at index 0), while the second coordinate moved from 0 to 0.5:
-   relative change 1, far above epsilon*gamma = 0.0625; the minimiser is (0, 1) *)
-Lemma saga_stop_zero_prefix_refuted_l :
-  exists tr, saga NumF sgq noRJ noSHK (Psg false) 100 [0; 0]
-               = (SgConv [0; 0.5], tr, [([0; 0], [0; 0.5], 0, true)]) /\
-     sg_eval_stop_full NumF [0; 0] [0; 0.5] (sg_tol NumF (Psg false)) = SGo 1 /\
-     sg_n_evals tr = 2%nat.
-Proof. eexists; split; [vm_compute; reflexivity | split; vm_compute; reflexivity]. Qed.
+(* regression (was F-SAGA-STOP-ZERO-PREFIX, fixed by 494d9f3): from (0, 0) the first epoch ends at
+   (0, 0.5).  The test as coded BEFORE the fix saw no coordinate at all (both iterates are zero at
+   index 0) and stopped there with delta 0, although the second coordinate moved from 0 to 0.5
+   (relative change 1, far above epsilon*gamma = 0.0625).  At HEAD the test sees that change (SGo 1),
+   the run goes on for four more epochs and returns (0, 0.96875) with the test over all coordinates
+   satisfied (1/31 <= 1/16). *)
+Lemma saga_stop_zero_prefix_regression_l :
+  exists tr d rest, saga NumF sgq noRJ noSHK (Psg false) 100 [0; 0]
+               = (SgConv [0; 0.96875], tr, ([0; 0.9375], [0; 0.96875], d, true) :: rest) /\
+     last rest ([], [], 0, true) = ([0; 0], [0; 0.5], 1, false) /\ length rest = 4%nat /\
+     sg_eval_stop_all NumF [0; 0.9375] [0; 0.96875] (sg_tol NumF (Psg false)) = SStop d /\
+     sg_eval_stop_prefix NumF [0; 0] [0; 0.5] (sg_tol NumF (Psg false)) = SStop 0 /\
+     sg_eval_stop_all NumF [0; 0] [0; 0.5] (sg_tol NumF (Psg false)) = SGo 1.
+Proof. do 3 eexists; split; [vm_compute; reflexivity | repeat split; vm_compute; reflexivity]. Qed.
 
-(* from (2, 3) no coordinate is zero in both iterates: the run converges with the test
-   over all coordinates satisfied *)
+(* from (2, 3): the run converges with the test over all coordinates satisfied *)
 Lemma saga_converges_l :
   exists x tr xs d rest, saga NumF sgq noRJ noSHK (Psg false) 100 [2; 3] = (SgConv x, tr, (xs, x, d, true) :: rest) /\
-     sg_eval_stop_full NumF xs x (sg_tol NumF (Psg false)) = SStop d /\ length rest = 4%nat.
+     sg_eval_stop_all NumF xs x (sg_tol NumF (Psg false)) = SStop d /\ length rest = 4%nat.
 Proof. do 5 eexists; split; [vm_compute; reflexivity | split; vm_compute; reflexivity]. Qed.
 
 (* F-SAGA-HOOK-NIL: a hook without regulariser: the run panics at the end of the first epoch
